@@ -72,7 +72,7 @@ Section P.
   (* what a Load evaluates, in terms of the files *)
   Lemma load_result (s : st) bits s' out :
     Inv s -> step s (Load bits) = (s', Some out) ->
-    out = gen (txt (fm Src s)) (txt (fc Src s)) (txt (fh Src s)) (txt (fk Src s)).
+    out = (txt (fm Src s), gen (txt (fm Src s)) (txt (fc Src s)) (txt (fh Src s)) (txt (fk Src s))).
   Proof.
     intros [Hm [Hh [Hk Hd]]] Hstep. unfold Model.step in Hstep.
     destruct (module_current s Hm) as [_ [_ Em]].
@@ -81,7 +81,7 @@ Section P.
     destruct (lookup Src (tag (gen (txt (fm Src s)) (txt (fc Src s)) (txt (fh Src s)) (txt (fk Src s))), bits) (dlls Src s)) as [built|] eqn:El.
     - inversion Hstep; subst. apply lookup_in in El.
       rewrite Forall_forall in Hd. specialize (Hd _ El). simpl in Hd.
-      apply tag_injective. exact Hd.
+      f_equal. apply tag_injective. exact Hd.
     - inversion Hstep; subst. reflexivity.
   Qed.
 
@@ -129,7 +129,7 @@ Section P.
     advancing Src gen tag true (init Src m c h k) ops = true ->
     let s := fst (run (init Src m c h k) ops) in
     forall s' out, step s (Load bits) = (s', Some out) ->
-    out = gen (txt (fm Src s)) (txt (fc Src s)) (txt (fh Src s)) (txt (fk Src s)).
+    out = (txt (fm Src s), gen (txt (fm Src s)) (txt (fc Src s)) (txt (fh Src s)) (txt (fk Src s))).
   Proof.
     intros Ha s s' out H. apply (load_result s bits s' out); auto.
     apply inv_run; auto. apply inv_init.
@@ -150,9 +150,22 @@ Definition witness_ops := [Load 64; EditM 4 2].
 Lemma newest_stamp_stale :
   advancing SrcW genW tagW false witness_init witness_ops = true /\
   let s := fst (run SrcW genW tagW false witness_init witness_ops) in
-  snd (step SrcW genW tagW false s (Load 64)) = Some (3, 5, 0, 0) /\ txt (fm SrcW s) = 4.
+  snd (step SrcW genW tagW false s (Load 64)) = Some (3, (3, 5, 0, 0)) /\ txt (fm SrcW s) = 4.
 Proof. vm_compute. repeat split. Qed.
 Lemma per_file_stamp_current :
   let s := fst (run SrcW genW tagW true witness_init witness_ops) in
-  snd (step SrcW genW tagW true s (Load 64)) = Some (4, 5, 0, 0).
+  snd (step SrcW genW tagW true s (Load 64)) = Some (4, (4, 5, 0, 0)).
 Proof. vm_compute. reflexivity. Qed.
+
+(* ---- a definition-only edit: two texts of the model file that generate the same source (only a default differs).
+   The library is shared, the definition the load returns is the current one ---- *)
+Definition genD (m c h k : nat) : SrcW := (Nat.modulo m 20, c, h, k).
+Lemma definition_only_edit :
+  let s0 := init SrcW (MkFile 6 1) (MkFile 5 1) (MkFile 0 0) (MkFile 0 0) in
+  let ops := [Load 64; EditM 46 2] in
+  advancing SrcW genD tagW true s0 ops = true /\
+  let s := fst (run SrcW genD tagW true s0 ops) in
+  snd (step SrcW genD tagW true s (Load 64)) = Some (46, (6, 5, 0, 0)) /\
+  length (dlls SrcW (fst (step SrcW genD tagW true s (Load 64)))) = 1.
+Proof. vm_compute. repeat split. Qed.
+
